@@ -667,6 +667,16 @@ MUTANTS = [
             self._queue_count += 1""", """            self._queue_count += 1
             self._pending_work_items[self._queue_count] = w
             self._work_ids.put(self._queue_count - 1)""")),
+    M("id-consumed-at-end-of-submit", ["C03"], ["R-ID"],
+      (PE, """            self._pending_work_items[self._queue_count] = w
+            self._work_ids.put(self._queue_count)
+            self._queue_count += 1""", """            work_id = self._queue_count
+            self._pending_work_items[work_id] = w
+            self._work_ids.put(work_id)"""),
+      (PE, """            self._executor_manager_thread_wakeup.wakeup()
+            return f""", """            self._executor_manager_thread_wakeup.wakeup()
+            self._queue_count = work_id + 1
+            return f""")),
     M("id-args-kwargs-swapped", ["C03"], ["R-ID"],
       (PE, """                            work_item.fn,
                             work_item.args,
